@@ -233,12 +233,37 @@ def build_instances(rng, dtype, batch, n):
                 return torch.tensor(q)
     perm = torch.stack([_perm() for _ in range(max(1, int(torch.Size(batch).numel())))]).reshape(*batch, n)
     out.append(X("Permutation", lambda: PermutationLinearOperator(perm.clone()), C.perm_matrix(perm, dtype), None, pd=False, tags=("perm",)))
-    # ---- known-defect instances (D09, D10)
+    # ---- inverse of a Cholesky operator (D09, fixed by /repo 05006ba: now a RootLinearOperator) -- generic PD path
     A_l, A_u = L @ L.mT, U.mT @ U
-    out.append(X("Chol[lower].inverse()", lambda: CholLinearOperator(TriangularLinearOperator(cl(L))).inverse(), None, None,
-                 solve_mat=A_l, tags=("D09",)))
+    out.append(X("Chol[lower].inverse()", lambda: CholLinearOperator(TriangularLinearOperator(cl(L))).inverse(), None, f"gen {n}",
+                 solve_mat=A_l, tags=("inv-of-chol",)))
     out.append(X("Chol[upper].inverse()", lambda: CholLinearOperator(TriangularLinearOperator(cl(U), upper=True), upper=True).inverse(),
-                 None, None, solve_mat=A_u, tags=("D09",)))
+                 None, f"gen {n}", solve_mat=A_u, tags=("inv-of-chol",)))
+    # ---- Cholesky operator over the (Kronecker-triangular) Cholesky factor of a Kronecker product, both orientations
+    Kd = C.kron(K1, K2)
+    out.append(X("Chol(Kronecker.cholesky)[lower]", lambda: CholLinearOperator(KroneckerProductLinearOperator(cl(K1), cl(K2)).cholesky()),
+                 Kd, None, tags=("build-logs",)))
+    out.append(X("Chol(Kronecker.cholesky)[upper]", lambda: CholLinearOperator(KroneckerProductLinearOperator(cl(K1), cl(K2)).cholesky(upper=True), upper=True),
+                 Kd, None, tags=("build-logs",)))
+    # ---- eigen-structured paths with a rank-deficient Kronecker factor and small noise s = 2^-10 (float64 only)
+    if dtype == F64:
+        s_ = 2.0 ** -10
+        r1 = ri(rng, (*batch, 2, 1), 1, 2, dtype)
+        K1s = r1 @ r1.mT                                   # rank one
+        sc = torch.full((*batch, 1), s_, dtype=dtype)
+        out.append(X("KroneckerAddedDiag[const|singular|s=2^-10]", lambda: KroneckerProductAddedDiagLinearOperator(
+            KroneckerProductLinearOperator(cl(K1s), cl(K2)), ConstantDiagLinearOperator(cl(sc), diag_shape=2 * n)),
+            C.kron(K1s, K2) + s_ * eye(2 * n), f"kpc gen 2 gen {n}", tags=("singular",)))
+        e1 = torch.full((*batch, 1), 2.0 ** -5, dtype=dtype)
+        out.append(X("KroneckerAddedDiag[kronconst|singular|s=2^-10]", lambda: KroneckerProductAddedDiagLinearOperator(
+            KroneckerProductLinearOperator(cl(K1s), cl(K2)),
+            KroneckerProductDiagLinearOperator(ConstantDiagLinearOperator(cl(e1), 2), ConstantDiagLinearOperator(cl(e1), n))),
+            C.kron(K1s, K2) + s_ * eye(2 * n), None, tags=("singular", "chol-desc-gen", "no-lanczos")))
+        C3, C4 = C.psd_int(rng, batch, 2, dtype), C.psd_int(rng, batch, n, dtype)
+        out.append(X("SumKronecker[singular|s=2^-10]", lambda: __import__("linear_operator").operators.SumKroneckerLinearOperator(
+            KroneckerProductLinearOperator(cl(K1s), cl(K2)), KroneckerProductLinearOperator(cl(C3) * s_, cl(C4))),
+            C.kron(K1s, K2) + s_ * C.kron(C3, C4), None, tags=("singular", "no-lanczos")))
+    # ---- known-defect instances (D10)
     Lb = torch.tril(ri(rng, (*batch, 2, n, n), -2, 2, dtype)) * (1 - eye(n)) + torch.diag_embed(ri(rng, (*batch, 2, n), 1, 2, dtype))
     out.append(X("Triangular(BlockDiag)", lambda: TriangularLinearOperator(BlockDiagLinearOperator(TriangularLinearOperator(cl(Lb)))),
                  C.block_diag_dense(Lb), None, pd=False, tags=("D10", "tri-nondense")))
@@ -307,6 +332,8 @@ def call_via(op, via, B, Lf):
         return op.inverse().to_dense()
     if via == "solve_triangular":
         return op.solve_triangular(B, upper=op.upper)
+    if via == "matmul":
+        return op @ B
     if via == "solve-twice":
         op.solve(B)
         return op.solve(B)
@@ -324,6 +351,10 @@ def spec_value(x, via, B, Lf):
         return (Bm * Xs).sum(-2)
     if via == "inverse.to_dense":
         return Ainv
+    if via == "matmul":
+        D = x.dense.double() if x.dense is not None else exact_inverse(x.solve_mat)
+        res = D @ Bm
+        return res.squeeze(-1) if Bd.dim() == 1 else res
     if Lf is not None:
         Xs = Lf.double() @ Xs
     if Bd.dim() == 1:
@@ -368,7 +399,7 @@ def one_case(chk, st, x, dtype, batch, cfgname, cfg, kind, left, via, cell):
         d = f"gen {N}"
     if d is not None and via.startswith("inv_quad") and x.name not in GENERIC_INVQUAD:
         d = None  # classes with their own inv_quad / inv_quad_logdet: values only
-    if d is not None and via in ("inverse@", "inverse.to_dense", "solve_triangular"):
+    if d is not None and via in ("inverse@", "inverse.to_dense", "solve_triangular", "matmul"):
         d = None
     if d is not None and err_cls is None:
         if via == "solve-twice":
@@ -386,7 +417,7 @@ def one_case(chk, st, x, dtype, batch, cfgname, cfg, kind, left, via, cell):
         if not x.pd and "NotPSDError" in err_cls and not x.tags & {"D10"}:
             chk.count("outcome/not-pd-refused")   # non-PD operator sent through the generic PD path: outside the property
             return
-        chk.violation(cell + "/exception", f"{x.name}.{via} raised {err_cls} (B shape {tuple(B.shape)}, left={left}, cfg={cfg_str(cfg)})", payload)
+        chk.violation(cell + "/exception:" + err_cls.split(":")[0], f"{x.name}.{via} raised {err_cls} (B shape {tuple(B.shape)}, left={left}, cfg={cfg_str(cfg)})", payload)
         return
     if tuple(got.shape) != tuple(want.shape):
         chk.violation(cell + "/shape", f"result shape {tuple(got.shape)} != {tuple(want.shape)} (cfg={cfg_str(cfg)})", payload)
@@ -426,7 +457,7 @@ def one_case(chk, st, x, dtype, batch, cfgname, cfg, kind, left, via, cell):
                                        f"B shape {tuple(B.shape)}, left={left})", payload)
 
 
-GENERIC_INVQUAD = {"Dense[psd]", "Toeplitz", "PsdSum", "Sum[toeplitz+diag]", "ConstantMul", "SumBatch", "Sum(Kronecker,Diag)",
+GENERIC_INVQUAD = {"Chol[lower].inverse()", "Chol[upper].inverse()", "Dense[psd]", "Toeplitz", "PsdSum", "Sum[toeplitz+diag]", "ConstantMul", "SumBatch", "Sum(Kronecker,Diag)",
                    "ConstantMul(Kronecker)", "SumBatch(Kronecker)", "AddedDiag", "AddedDiag(Toeplitz,ConstantDiag)"}
 
 
@@ -475,11 +506,11 @@ def formula_cases(chk, st, rng, only):
             jobs.append((f"C04/model/chols{tag}/tri._cholesky_solve", f"chols 0 {n} 2 {fm(L)} {fm(B)}", lambda: TriangularLinearOperator(L.clone())._cholesky_solve(B)))
             jobs.append((f"C04/model/chols{tag}/tri._cholesky_solve[upper]", f"chols 1 {n} 2 {fm(U)} {fm(B)}",
                          lambda: TriangularLinearOperator(U.clone(), upper=True)._cholesky_solve(B, upper=True)))
-            # D09 as coded: inverse of a Cholesky operator
-            Linv = torch.tensor([[float(v) for v in r] for r in frac_inv(to_frac_rows(L))], dtype=dt)
-            if float((Linv * 1024 - (Linv * 1024).round()).abs().max()) == 0:  # exactly representable inverse factor
-                jobs.append((f"C04/model/cholinv-as-coded{tag}", f"cholinv 0 {n} 2 {fm(Linv)} {fm(B)}",
-                             lambda: CholLinearOperator(TriangularLinearOperator(L.clone())).inverse().solve(B)))
+            # inverse of a Cholesky operator: the root handed to RootLinearOperator, both orientations
+            jobs.append((f"C04/model/cholinvroot{tag}/lower", f"cholinvroot 0 {n} 2 {fm(L)} {fm(B)}",
+                         lambda: CholLinearOperator(TriangularLinearOperator(L.clone())).inverse().root.to_dense()))
+            jobs.append((f"C04/model/cholinvroot{tag}/upper", f"cholinvroot 1 {n} 2 {fm(U)} {fm(B)}",
+                         lambda: CholLinearOperator(TriangularLinearOperator(U.clone(), upper=True), upper=True).inverse().root.to_dense()))
             d = C.ri(rng, (n,), 1, 4, dt)
             jobs.append((f"C04/model/diag{tag}/solve", f"diag {n} 2 {fmt_list(d.tolist())} {fm(B)}", lambda: DiagLinearOperator(d.clone()).solve(B)))
             jobs.append((f"C04/model/diag{tag}/_cholesky_solve", f"diagchol {n} 2 {fmt_list(d.tolist())} {fm(B)}", lambda: DiagLinearOperator(d.clone())._cholesky_solve(B)))
@@ -619,8 +650,10 @@ def run(chk, only=None):
                     for cfgname, cfg in configs_for(N, quick):
                         if dtype == F32 and cfgname not in ("default", "mc0|tol1e-6", "mc0|fastoff"):
                             continue
-                        if "ldt32" in cfgname and not (x.name.startswith("KroneckerAddedDiag") or x.name in ("Dense[psd]", "SumKronecker")):
+                        if "ldt32" in cfgname and ("singular" in x.tags or not (x.name.startswith("KroneckerAddedDiag") or x.name in ("Dense[psd]", "SumKronecker"))):
                             continue
+                        if "no-lanczos" in x.tags and cfg.get("fast", True) and cfg.get("mc", defaults["mc"]) < max(2, n):
+                            continue  # factors above max_cholesky_size would be diagonalised / rooted by Lanczos (toleranced path)
                         if "perm" in x.tags and not (cfg.get("fast", True) and N > cfg.get("mc", defaults["mc"])):
                             continue  # a permutation is not PD: only its own `_solve` (iterative branch) and inverse are in scope
                         rich = cfgname in ("default", "mc0|tol1e-6")
@@ -636,12 +669,14 @@ def run(chk, only=None):
                                         vias += ["inverse@", "inverse.to_dense"]
                                     if x.name.startswith("Triangular["):
                                         vias += ["solve_triangular"]
+                                    if x.name.startswith("Chol"):
+                                        vias += ["matmul"]
                                 if cfgname == "default" and kind == "mat" and not left and dtype == F64:
                                     pass
                                 for via in vias:
-                                    if kind == "vec" and batch and left:
-                                        continue
-                                    if x.tags & {"D09", "D10"} and via not in ("solve",):
+                                    if kind == "vec" and left and (batch or (x.dense is not None and x.dense.dim() > 2)):
+                                        continue  # a 1-D rhs with a left factor is only typed for an unbatched operator
+                                    if x.tags & {"D10"} and via not in ("solve",):
                                         continue
                                     if not x.pd and via.startswith("inv_quad"):
                                         continue  # inverse quadratic forms are only defined for PD operators
@@ -720,7 +755,8 @@ def replay(chk, payload):
     if not cell:
         run(chk)
         return
-    for suffix in ("/exception", "/shape", "/dtype", "/value", "/residual", "/algorithm", "/driver"):
+    cell = re.sub(r"/exception(:\w+)?$", "", cell)
+    for suffix in ("/shape", "/dtype", "/value", "/residual", "/algorithm", "/driver"):
         if cell.endswith(suffix):
             cell = cell[: -len(suffix)]
     chk.seed = p.get("seed", chk.seed)
